@@ -123,6 +123,9 @@ def run(ctx):
     # the Slice arm's value is the slice helper's: which elements it selects is part of what the arm denotes (shared with C07)
     from .c07 import check_slice_routine
     ctx.attempt("check_slice_routine", check_slice_routine, ctx, lib)
+    # the truth-table forms (||, &&, !, filter conditions) denote through the truthiness of their operands' results: the
+    # truthiness table per kind of value (shared with C01)
+    ctx.attempt("check_truthy", c01.check_truthy, ctx, lib)
     # parser side
     ctx.attempt("check_parser_side", check_parser_side, ctx, lib)
     # nothing else is read: effect analysis verdict
